@@ -51,11 +51,15 @@ impl BytesSerializable for LoginWithPersonalAccessToken {
     }
 
     fn from_bytes(bytes: Bytes) -> Result<LoginWithPersonalAccessToken, IggyError> {
-        if bytes.len() < 4 {
+        if bytes.len() < 2 {
             return Err(IggyError::InvalidCommand);
         }
 
         let token_length = bytes[0];
+        if bytes.len() < 1 + token_length as usize {
+            return Err(IggyError::InvalidCommand);
+        }
+
         let token = from_utf8(&bytes[1..1 + token_length as usize])
             .map_err(|_| IggyError::InvalidUtf8)?
             .to_string();
